@@ -452,7 +452,11 @@ func (ls *lockstep) step(t int) string {
 		ls.sample()
 		return strconv.Itoa(t) + ":" + ev
 	case <-time.After(20 * time.Second):
+		// a goroutine that does not reach its next yield point / return within 20 s while it is the only
+		// runnable one is stuck inside the allocator: dump every goroutine so that the report shows where
 		ls.done[t] = true
+		buf := make([]byte, 1<<20)
+		fmt.Fprintf(os.Stderr, "c08: goroutine %d did not reach its next yield point within 20s; goroutine dump:\n%s\n", t, buf[:runtime.Stack(buf, true)])
 		return strconv.Itoa(t) + ":hang"
 	}
 }
@@ -831,8 +835,10 @@ func genSeq(r *vh.Rng, out *vh.Out) {
 	out.Case(op, exec(op), cls, true)
 }
 
-// one in bigSmonOneIn 32768-id smon scenarios is kept (a complete fill costs the model > 1 s)
+// one in bigSmonOneIn 32768-id smon scenarios is kept (a complete fill costs the model > 1 s), at most
+// bigSmonBudget per run
 var bigSmonOneIn = 120
+var bigSmonBudget = 3
 
 func shuffle(r *vh.Rng, a []int) {
 	for i := len(a) - 1; i > 0; i-- {
@@ -846,8 +852,11 @@ func shuffle(r *vh.Rng, a []int) {
 // releases, releases of free and out-of-range ids), refill (exactly / beyond / partly), repeat.
 func genSmon(r *vh.Rng, out *vh.Out) {
 	proto := []int{1, 2, 2, 2, 2, 2, 3, 4}[r.Intn(8)]
-	if proto > 2 && r.Intn(bigSmonOneIn) != 0 {
+	if proto > 2 && (r.Intn(bigSmonOneIn) != 0 || bigSmonBudget == 0) {
 		proto = 2
+	}
+	if proto > 2 {
+		bigSmonBudget--
 	}
 	capN := capOf(proto)
 	g := gocql.VerifStreamsNew(proto)
@@ -1358,6 +1367,19 @@ func exhaustive(r *vh.Rng, out *vh.Out) {
 		enumerate(out, 2, 3, pre, [][]string{{"g", "r"}, {"g", "r"}, {"c5", "g"}}, 2, "exh/3x2/pre<=2", 60000)
 		enumerate(out, 2, 3, pre, [][]string{{"g", "g"}, {"g", "c6"}, {"c5", "g"}}, 2, "exh/3x2/pre<=2", 60000)
 	}
+	// racing double release of one id by two goroutines while a third acquires: ALL schedules
+	for _, pre := range [][]string{{"G1"}, {"G2", "c64"}, {"G127"}} {
+		enumerate(out, 2, 3, pre, [][]string{{"c1"}, {"c1"}, {"g"}}, -1, "exh/3x1/double-release/all", 60000)
+		enumerate(out, 2, 2, pre, [][]string{{"c1", "g"}, {"c1", "c1"}}, -1, "exh/2x2/double-release/all", 60000)
+		enumerate(out, 2, 3, pre, [][]string{{"c1", "a"}, {"c1"}, {"g", "r"}}, 3, "exh/3x2/double-release/pre<=3", 60000)
+	}
+	// every pair of holes of a full 128-id generator
+	for x := 1; x < 128; x++ {
+		for y := x + 1; y < 128; y++ {
+			op := fmt.Sprintf("smon 2 G127 c%d c%d g g g a", y, x)
+			out.Case(op, exec(op), "smon/two-holes/128", true)
+		}
+	}
 	_ = r
 }
 
@@ -1391,6 +1413,7 @@ func main() {
 		mult = 30
 		bigFillOneIn = 600
 		bigSmonOneIn = 1200
+		bigSmonBudget = 12
 	}
 	// fixed boundary scenarios: use every id sequentially, then fail, both capacities
 	for _, op := range []string{
@@ -1426,6 +1449,25 @@ func main() {
 		"smon 2 g c0 g a",
 	} {
 		out.Case(op, exec(op), "smon/fixed", true)
+	}
+	// every single hole of a full 128-id generator: release x, GetStream must succeed, the next one must fail
+	for x := 1; x < 128; x++ {
+		op := fmt.Sprintf("smon 2 G127 c%d g g a", x)
+		out.Case(op, exec(op), "smon/single-hole/128", true)
+	}
+	// the same on ONE full 32768-id generator, for every position of the second word and ids at the borders
+	{
+		var holes []int
+		for x := 64; x < 128; x++ {
+			holes = append(holes, x)
+		}
+		holes = append(holes, 1, 2, 63, 128, 16383, 16384, 32703, 32704, 32705, 32766, 32767)
+		toks := []string{"G32767"}
+		for _, x := range holes {
+			toks = append(toks, fmt.Sprintf("c%d", x), "g", "g")
+		}
+		op := "smon 3 " + strings.Join(toks, " ")
+		out.Case(op, exec(op), "smon/single-hole/32768", true)
 	}
 	// fixed lock-step scenarios outside the client protocol: racing double release of one id by 2 and 3
 	// goroutines; double release racing the re-acquisition of the id (the excluded case 2: the unchanged code
